@@ -229,7 +229,7 @@ def lognormcdf_spec(c, z):
     return z3.If(is_near, near, z3.If(is_small, small, ordinary)), (is_near, is_small, num, den)
 
 
-@case("C19", clause="log_normal_cdf", expand=lambda ix: [(1,)], replay=lambda *a: replay_lncdf(*a), timeout=1500, tier="thorough",
+@case("C19", clause="log_normal_cdf", expand=lambda ix: [(1,)], replay=lambda *a: replay_lncdf(*a), timeout=600, tier="thorough",
       name="log_normal_cdf_vector", functions=[f"{LNC}.forward", f"{LNC}.backward"])
 def log_normal_cdf_vector(c, rank):
     """the same contract on a vector of symbolic length (mask / count logic of the three branches); slow: thorough tier"""
